@@ -160,6 +160,7 @@ type Machine struct {
 	floatCache     map[string]*Term
 	encBlobs       []*Blob
 	lastHexID      string
+	servedHandler  Value // handler given to http.ListenAndServe (zzhttp.go)
 	nextRecID      *Term // recovery id the next modelled crypto.Sign produces (harness request.verifNextRecID)
 	reflCalls      int
 	wsConns        []*wsConn
@@ -423,6 +424,32 @@ func (m *Machine) assume(c *Term) {
 
 func (m *Machine) model() map[string]string {
 	vals := m.solver.getValues(m.varOrder)
+	// an equality-only string that the model makes equal to a concrete string of the run gets that
+	// string in the replay (name!str); otherwise the replay invents one of the model's length
+	var atomVars, consts []*Term
+	byName := map[string]string{}
+	for _, v := range m.varOrder {
+		if v.sort == SAtom {
+			atomVars = append(atomVars, v)
+		}
+	}
+	if len(atomVars) > 0 && len(m.atoms) > 0 {
+		for str, c := range m.atoms {
+			consts = append(consts, c)
+			byName[strings.Trim(c.String(), "|")] = str
+		}
+		cv := m.solver.getValues(consts)
+		byVal := map[string]string{}
+		for name, val := range cv {
+			byVal[val] = byName[name]
+		}
+		for _, v := range atomVars {
+			name := strings.Trim(v.String(), "|")
+			if str, ok := byVal[vals[name]]; ok {
+				vals[name+"!str"] = str
+			}
+		}
+	}
 	return vals
 }
 
